@@ -74,10 +74,57 @@ func c07GenFile(r *rand.Rand) c07BaseFile {
 	add("- name: g0")
 	add("  rules:")
 	nr := 1 + r.Intn(3)
+	// control comments a rule may already carry (the inserted one lands somewhere among them: c1 ++ [d] ++ c2); the
+	// expired snoozes name reporters that do fire on these files, so a later live snooze / disable of the same reporter
+	// has to be honoured after them
+	pre := []string{"# pint disable promql/regexp", "# pint rule/set promql/series min-age 1d", "# pint snooze 2000-01-01 alerts/comparison",
+		"# pint disable promql/fragile", "# pint rule/owner alice", "# pint snooze 2000-01-01 rule/label", "# pint snooze 2001-11-28T10:24:18Z alerts/annotation",
+		"# pint snooze 2000-01-01 promql/regexp", "# pint snooze 2000-01-01 alerts/for", "# pint snooze 2000-01-01 rule/label(owner:true)",
+		"# pint disable nosuch/check", "# pint snooze 2099-01-01 nosuch/check"}
 	for i := 0; i < nr; i++ {
 		var ru c07Rule
 		alert := r.Intn(3) > 0
 		var ln int
+		// comment line(s) directly above the rule: plain text or control comments (they become the head comment of the
+		// rule's mapping node / first key)
+		switch r.Intn(6) {
+		case 0:
+			add("  # " + pick(r, []string{"note", "legacy rule, see wiki", "pint is great"}))
+		case 1:
+			add("  " + pick(r, pre))
+		case 2:
+			add("  " + pick(r, pre))
+			add("  " + pick(r, pre))
+		}
+		if r.Intn(4) == 0 {
+			// flow-style rule: the whole mapping on one line; a trailing comment there is the mapping node's own line comment
+			fields := []string{}
+			if alert {
+				fields = append(fields, fmt.Sprintf("alert: Alert%d", i), "expr: '"+pick(r, []string{"up", "foo{job=~\"bar\"}", "sum(rate(errors_total[5m])) > 0.5", "up == 0"})+"'")
+				if r.Intn(2) == 0 {
+					fields = append(fields, "for: "+pick(r, []string{"5m", "0m"}))
+				}
+				if r.Intn(2) == 0 {
+					fields = append(fields, "labels: {"+pick(r, []string{"team: a", "owner: b"})+"}")
+				}
+				if r.Intn(2) == 0 {
+					fields = append(fields, "annotations: {"+pick(r, []string{"summary: plain", "runbook: 'http://x'"})+"}")
+				}
+			} else {
+				fields = append(fields, fmt.Sprintf("record: 'job:rec%d:sum'", i), "expr: '"+pick(r, []string{"sum(up)", "foo{job=~\"bar\"}", "count(up == 0)"})+"'")
+				if r.Intn(2) == 0 {
+					fields = append(fields, "labels: {team: a}")
+				}
+			}
+			ln = add("  - {" + strings.Join(fields, ", ") + "}")
+			ru.First, ru.Last = ln, ln
+			ru.PlainLines = []int{ln}
+			f.Rules = append(f.Rules, ru)
+			if r.Intn(3) == 0 {
+				add("")
+			}
+			continue
+		}
 		if alert {
 			ln = add(fmt.Sprintf("  - alert: Alert%d", i))
 		} else {
@@ -120,15 +167,15 @@ func c07GenFile(r *rand.Rand) c07BaseFile {
 			ru.PlainLines = append(ru.PlainLines, ln)
 			ru.FieldLines = append(ru.FieldLines, ln)
 		}
-		// pre-existing control comments on the rule: the inserted one lands somewhere among them (c1 ++ [d] ++ c2)
-		if r.Intn(4) == 0 {
-			ln = add("    " + pick(r, []string{"# pint disable promql/regexp", "# pint rule/set promql/series min-age 1d", "# pint snooze 2000-01-01 alerts/comparison",
-				"# pint disable promql/fragile", "# pint rule/owner alice"}))
-			ru.FieldLines = append(ru.FieldLines, ln)
+		// the last field of a rule is not a "between fields" point: what follows it is a comment block AFTER the rule's
+		// last field, whose attachment is yaml.v3's business (in a CRLF file yaml.v3 v3.0.1 hands every line but the
+		// first of such a block to the document node: observed 2026-10-02, see notes/C07.md)
+		ru.FieldLines = ru.FieldLines[:len(ru.FieldLines)-1]
+		// pre-existing control comments after the last field
+		for k := r.Intn(6) - 3; k > 0; k-- {
+			add("    " + pick(r, pre))
 		}
 		ru.Last = len(f.Lines)
-		// the last line of a rule is not a "between fields" point
-		ru.FieldLines = ru.FieldLines[:len(ru.FieldLines)-1]
 		f.Rules = append(f.Rules, ru)
 		if r.Intn(3) == 0 {
 			add("")
